@@ -2,10 +2,14 @@
  *
  * case header : al <cap> [F] | st <cap> [F] | ll <cap> [F] | qu <cap> [F] | ps <req> <preset|-> [F]
  * every op line gives exactly one output line:  r=<result> | <dump of the whole container> | freed=[...]
- * A trailing token F makes every malloc called by that operation fail.
+ * A trailing token F makes every malloc called by that operation fail; a malloc of more than
+ * MALLOC_LIMIT bytes always fails (so that huge but valid capacities are refused cleanly).
  * Data pointers are small integers (0 = NULL); node pointers are numbered in
  * creation order; nothing address-dependent is printed.
- * The free-data callback is always supplied; it records what it is given. */
+ * Every operation that takes a free-data callback (rem, clear, pop, deq, destroy) passes the recording
+ * callback, or NULL when the line ends in the token B (borrowed data: the documented use).
+ * `destroy [B]` destroys the container explicitly (last line of a case); without it the container is
+ * destroyed with the callback at the end of the case (line `end freed=[..]`). */
 #include "vdrv.h"
 #include "muggle/c/dsaa/array_list.h"
 #include "muggle/c/dsaa/stack.h"
@@ -15,11 +19,12 @@
 #include "muggle/c/base/err.h"
 
 /* ---- malloc failure switch (-Wl,--wrap=malloc) ---- */
+#define MALLOC_LIMIT ((size_t)16 << 20)
 static int g_fail_malloc;
 void *__real_malloc(size_t n);
 void *__wrap_malloc(size_t n)
 {
-	if (g_fail_malloc) return NULL;
+	if (g_fail_malloc || n > MALLOC_LIMIT) return NULL;
 	return __real_malloc(n);
 }
 
@@ -47,6 +52,9 @@ static int cmp_key(const void *a, const void *b)
 	return x < y ? -1 : (x > y ? 1 : 0);
 }
 #define D(x) ((void *)(uintptr_t)(x))
+/* the callback of this line: NULL when the line ends in B */
+static int g_borrow;
+#define CB (g_borrow ? (muggle_dsaa_data_free)NULL : on_free)
 
 static int kind; /* 0 none 1 al 2 st 3 ll 4 qu 5 ps */
 static muggle_array_list_t al;
@@ -117,13 +125,13 @@ static void al_line(char *op, long long a, long long b, int fail)
 		g_fail_malloc = 0;
 		if (p) printf("r=%ld", (long)(p - al.nodes)); else printf("r=X");
 	} else if (strcmp(op, "rem") == 0) {
-		bool r = muggle_array_list_remove(&al, (int)a, on_free, &g_cookie);
+		bool r = muggle_array_list_remove(&al, (int)a, CB, &g_cookie);
 		printf("r=%d", r ? 1 : 0);
 	} else if (strcmp(op, "find") == 0) {
 		int r = muggle_array_list_find(&al, (int)a, D(b), cmp_key);
 		printf("r=%d", r);
 	} else if (strcmp(op, "clear") == 0) {
-		muggle_array_list_clear(&al, on_free, &g_cookie);
+		muggle_array_list_clear(&al, CB, &g_cookie);
 		printf("r=-");
 	} else if (strcmp(op, "ens") == 0) {
 		g_fail_malloc = fail;
@@ -160,10 +168,10 @@ static void st_line(char *op, long long a, int fail)
 		g_fail_malloc = 0;
 		if (p) printf("r=%ld", (long)(p - st.nodes)); else printf("r=X");
 	} else if (strcmp(op, "pop") == 0) {
-		muggle_stack_pop(&st, on_free, &g_cookie);
+		muggle_stack_pop(&st, CB, &g_cookie);
 		printf("r=-");
 	} else if (strcmp(op, "clear") == 0) {
-		muggle_stack_clear(&st, on_free, &g_cookie);
+		muggle_stack_clear(&st, CB, &g_cookie);
 		printf("r=-");
 	} else if (strcmp(op, "ens") == 0) {
 		g_fail_malloc = fail;
@@ -236,7 +244,7 @@ static void ll_line(char *op, int isnull, long long a, long long b, int fail)
 	} else if (strcmp(op, "rem") == 0) {
 		if (isnull) { printf("badpos | "); ll_dump(); return; }
 		node_del(at);
-		muggle_linked_list_node_t *p = muggle_linked_list_remove(&ll, at, on_free, &g_cookie);
+		muggle_linked_list_node_t *p = muggle_linked_list_remove(&ll, at, CB, &g_cookie);
 		printf("r=");
 		print_id(p);
 	} else if (strcmp(op, "find") == 0) {
@@ -244,7 +252,7 @@ static void ll_line(char *op, int isnull, long long a, long long b, int fail)
 		printf("r=");
 		print_id(p);
 	} else if (strcmp(op, "clear") == 0) {
-		muggle_linked_list_clear(&ll, on_free, &g_cookie);
+		muggle_linked_list_clear(&ll, CB, &g_cookie);
 		g_nn = 0;
 		printf("r=-");
 	} else {
@@ -294,10 +302,10 @@ static void qu_line(char *op, long long a, int fail)
 	} else if (strcmp(op, "deq") == 0) {
 		muggle_queue_node_t *f = muggle_queue_front(&qu);
 		if (f) node_del(f);
-		muggle_queue_dequeue(&qu, on_free, &g_cookie);
+		muggle_queue_dequeue(&qu, CB, &g_cookie);
 		printf("r=-");
 	} else if (strcmp(op, "clear") == 0) {
-		muggle_queue_clear(&qu, on_free, &g_cookie);
+		muggle_queue_clear(&qu, CB, &g_cookie);
 		g_nn = 0;
 		printf("r=-");
 	} else {
@@ -308,6 +316,15 @@ static void qu_line(char *op, long long a, int fail)
 }
 
 /* ---------------------------------------------------------------- pointer slot */
+#define PS_DENSE 4096
+static void ps_probe(unsigned int i, int *first)
+{
+	void *d = muggle_pointer_slot_get(&ps, i);
+	if (!*first) printf(",");
+	*first = 0;
+	if (d) printf("%u=%lu", i, (unsigned long)(uintptr_t)d); else printf("%u=X", i);
+}
+
 static void ps_dump(void)
 {
 	unsigned int cap = ps.capacity;
@@ -332,10 +349,18 @@ static void ps_dump(void)
 	}
 	if (k != 0) bad = 1;
 	printf(" bw=%s get=[", bad ? "BAD" : "ok");
-	for (unsigned int i = 0; i < cap + 2; i++) {
-		void *d = muggle_pointer_slot_get(&ps, i);
-		if (i) printf(",");
-		if (d) printf("%lu", (unsigned long)(uintptr_t)d); else printf("X");
+	if (cap <= PS_DENSE) {
+		for (unsigned int i = 0; i < cap + 2; i++) {
+			void *d = muggle_pointer_slot_get(&ps, i);
+			if (i) printf(",");
+			if (d) printf("%lu", (unsigned long)(uintptr_t)d); else printf("X");
+		}
+	} else {
+		/* big slot: indices 0..15, every live index (iteration order), capacity-2 .. capacity+1, as i=value */
+		int first = 1;
+		for (unsigned int i = 0; i < 16; i++) ps_probe(i, &first);
+		for (long j = 0; j < cnt; j++) ps_probe(fw[j]->slot_idx, &first);
+		for (unsigned int i = cap - 2; i != cap + 2; i++) ps_probe(i, &first);
 	}
 	printf("]");
 }
@@ -375,28 +400,35 @@ static int g_first;
 
 static void case_begin(void)
 {
-	kind = 0; g_first = 1; g_nfreed = 0; g_badpool = 0; g_nn = 0; g_next_id = 1; g_fail_malloc = 0;
+	kind = 0; g_first = 1; g_nfreed = 0; g_badpool = 0; g_nn = 0; g_next_id = 1; g_fail_malloc = 0; g_borrow = 0;
+}
+
+static void destroy_now(void)
+{
+	switch (kind) {
+	case 1: muggle_array_list_destroy(&al, CB, &g_cookie); break;
+	case 2: muggle_stack_destroy(&st, CB, &g_cookie); break;
+	case 3: muggle_linked_list_destroy(&ll, CB, &g_cookie); break;
+	case 4: muggle_queue_destroy(&qu, CB, &g_cookie); break;
+	case 5: muggle_pointer_slot_destroy(&ps); break;
+	default: break;
+	}
 }
 
 static void case_end(void)
 {
-	switch (kind) {
-	case 1: muggle_array_list_destroy(&al, on_free, &g_cookie); break;
-	case 2: muggle_stack_destroy(&st, on_free, &g_cookie); break;
-	case 3: muggle_linked_list_destroy(&ll, on_free, &g_cookie); break;
-	case 4: muggle_queue_destroy(&qu, on_free, &g_cookie); break;
-	case 5: muggle_pointer_slot_destroy(&ps); break;
-	default: break;
-	}
+	g_borrow = 0;
+	destroy_now();
 	if (kind >= 1 && kind <= 4) { printf("end "); print_freed(); printf("\n"); }
 	kind = 0;
 }
 
-static int has_fail(char *line)
+static int has_flag(char *line, char f)
 {
 	size_t n = strlen(line);
-	return n >= 2 && line[n - 1] == 'F' && line[n - 2] == ' ';
+	return n >= 2 && line[n - 1] == f && line[n - 2] == ' ';
 }
+static int has_fail(char *line) { return has_flag(line, 'F'); }
 
 static void header(char *line)
 {
@@ -445,9 +477,20 @@ static void case_line(char *line)
 	int nf = sscanf(line, "%15s %31s %31s", op, s1, s2);
 	if (nf < 1) { printf("r=?\n"); return; }
 	int fail = has_fail(line);
+	g_borrow = has_flag(line, 'B');
 	int isnull = (strcmp(s1, "N") == 0);
-	long long a = (nf >= 2 && !isnull && strcmp(s1, "F") != 0) ? strtoll(s1, NULL, 10) : 0;
-	long long b = (nf >= 3 && strcmp(s2, "F") != 0) ? strtoll(s2, NULL, 10) : 0;
+	long long a = (nf >= 2 && !isnull && strcmp(s1, "F") != 0 && strcmp(s1, "B") != 0) ? strtoll(s1, NULL, 10) : 0;
+	long long b = (nf >= 3 && strcmp(s2, "F") != 0 && strcmp(s2, "B") != 0) ? strtoll(s2, NULL, 10) : 0;
+	if (strcmp(op, "destroy") == 0 && kind >= 1 && kind <= 4) {
+		/* explicit destroy (with or without callback): the container is gone afterwards */
+		destroy_now();
+		kind = 0;
+		printf("r=- | destroyed | ");
+		print_freed();
+		printf("\n");
+		g_borrow = 0;
+		return;
+	}
 	switch (kind) {
 	case 1: al_line(op, a, b, fail); break;
 	case 2: st_line(op, a, fail); break;
@@ -457,6 +500,7 @@ static void case_line(char *line)
 	}
 	if (kind != 5) { printf(" | "); print_freed(); }
 	printf("\n");
+	g_borrow = 0;
 }
 
 int main(void) { return vdrv_main(); }
